@@ -101,10 +101,19 @@ class Binder:
         st.env = dict(st.env)
         self.heap, self.alloc = None, None
         self.keep = None
+        # bound variables a contract call inside this binder may depend on (None: such calls are out of subset)
+        self.bvs = None
+        self.active = False
+        self.skolem = []
+        if not hasattr(st, "binder_ctx"):
+            st.binder_ctx = []
+        st.binder_ctx.append(self)
         st.in_binder = getattr(st, "in_binder", 0) + 1
         return self
 
     def snap(self):
+        # called once the (first) domain is evaluated: from here on evaluation is under the bound variables
+        self.active = True
         self.heap, self.alloc = dict(self.st.heap), self.st.alloc
 
     def __exit__(self, *a):
@@ -115,6 +124,7 @@ class Binder:
         if self.heap is not None:
             st.heap, st.alloc = self.heap, self.alloc
         st.in_binder -= 1
+        st.binder_ctx.pop()
         return False
 
 
@@ -638,7 +648,11 @@ class EvalMixin:
             use_t = (universal and cx.pol > 0) or ((not universal) and cx.pol < 0)
             # (definedness assumptions of partial operations inside the body - key present, index in range -
             #  are not turned into guards: a contract is expected to be well-defined on its domain)
-            allg = guards + ([f for f in extra if f.get_id() in st.glob] if use_t else [])
+            tfacts = [f for f in extra if f.get_id() in st.glob]
+            allg = guards + (tfacts if use_t else [])
+            if universal and cx.pol < 0 and tfacts:
+                # an assumed universal: the typing assumptions about its elements hold for every element too
+                body = z3.And([body] + tfacts)
         g = z3.And(allg) if allg else z3.BoolVal(True)
         if universal:
             return SBool(z3.ForAll(bvs, z3.Implies(g, body)))
@@ -661,7 +675,17 @@ class EvalMixin:
                 raise OutOfSubset("list comprehension over a set")
             st.env.update(binds)
             st.pc.append(g)
+            b.bvs = [bv]
             elt = self.ev(node.elt, st, cx)
+            # results of contract calls made per element are functions of the bound variable; what their
+            # contracts say holds for every element of the domain
+            lifted = None
+            if b.skolem:
+                facts = list(st.pc[b.keep + 1:])
+                if facts:
+                    lifted = z3.ForAll([bv], z3.Implies(g, z3.And(facts)), patterns=list(b.skolem))
+        if lifted is not None:
+            st.assume(lifted)
         it = gen.iter
         if isinstance(it, ast.Call) and isinstance(it.func, ast.Name) and it.func.id == "range":
             args = [self.as_int(self.ev(a, st, cx)) for a in it.args]
